@@ -6,6 +6,7 @@ from ..fold import CannotFold, Folder
 from ..interp import analyze, truth
 from ..model import AnalysisError
 from ..report import Ctx, where
+from ..strtpl import flatten
 from ..terms import show, walk
 
 S = ("param", "self")
@@ -57,10 +58,11 @@ def human_rules(ctx: Ctx):
     for e in rq.by_kind("call"):
         if e.func[0] == "attr" and e.func[2] == "replace" and len(e.args) == 2 and e.args[0][0] == "elem":
             it = e.args[0][1]
-            if it[0] == "binop" and it[1] == "Add" and it[2] == ("const", "%") and it[3] == ("param", hq.params[1]):
+            if flatten(it) == [("lit", "%"), ("val", ("param", hq.params[1]))]:
                 pct_first = True
-            rep = e.args[1]
-            if rep[0] == "fstr" and rep[1][0] == ("const", "%") and rep[1][1][0] == "fmt" and rep[1][1][3] == "02X":
+            rep = flatten(e.args[1])        # '%' + two upper-case hex digits of the character, in any spelling
+            if len(rep) == 2 and rep[0] == ("lit", "%") and rep[1][0] == "fmt" and rep[1][2] == "02X" and \
+                    rep[1][1] == ("call", ("builtin", "ord"), (e.args[0],), ()):
                 upper = True
     ctx.ob(rule, hq.qual, "'%' + unsafe, rendered %XX", pct_first and upper,
            f"human_quote must escape '%' before the position delimiters and render escapes as upper-case %XX (percent first: {pct_first}, %02X: {upper})",
